@@ -518,7 +518,7 @@ func Run(cfg *common.Config) (*common.Report, error) {
 		return rep, d.writeShards()
 	}
 	for i, doc := range regressionDocs() {
-		d.docCase(doc, i%len(d.hs))
+		d.docCase(doc, []int{0, 2}[i%2]) // hashers under which the empty string has no hash
 	}
 	nValid := cfg.Pick(150, 4000)
 	for i := 0; i < nValid; i++ {
@@ -550,7 +550,7 @@ func Run(cfg *common.Config) (*common.Report, error) {
 		d.docCase(d.dupPathDoc(), cfg.Rng.Intn(len(d.hs)))
 	}
 	for i := 0; i < cfg.Pick(36, 900); i++ {
-		d.docCase(d.emptyStringDoc(), []int{0, hiEmptyNil, hiEmptyBig, 1}[i%4])
+		d.docCase(d.emptyStringDoc(), []int{0, hiEmptyNil, hiEmptyBig, 2}[i%4]) // not 1: the salted hasher hashes "salt:"
 	}
 	for i := 0; i < cfg.Pick(120, 3000); i++ {
 		ds, kind := d.rawDataset()
